@@ -26,7 +26,61 @@ OWN = "C01"
 PROFILE = "c01"
 
 
+def run_idreuse(case, res):
+    """Custom node_ids that are the addresses of objects that have since been freed: CPython hands such addresses out
+    again, so a later node's default id (= id(node)) can coincide with a custom id that is still in use.  Whatever the
+    library does with such an add (it may refuse it), no two reachable nodes may share a node_id and the id index has to
+    stay in step with the nodes."""
+    import gc
+
+    from nutree import Tree
+    from nutree.typed_tree import TypedTree
+
+    from .. import wf
+
+    rng = rng_for(case["seed"], "c01-idreuse")
+    typed = case.get("typed", False)
+    kw = {"kind": "k"} if typed else {}
+    cls = TypedTree if typed else Tree
+    t = cls("live")
+    donor = cls("donor")
+    dn = [donor.add(f"d{i}", **kw) for i in range(rng.randint(3, 12))]
+    for n in list(dn)[: len(dn) // 2]:
+        dn.append(n.add(f"dd{n.data}", **kw))
+    holders = [t]
+    for i, n in enumerate(dn):
+        # the data is taken over under the node's old key (as code migrating nodes between trees does)
+        new = rng.choice(holders).add(f"m{i}", node_id=n.node_id, **kw)
+        holders.append(new)
+    del donor, dn, n
+    gc.collect()
+    refused = collided = 0
+    ids_in_use = {x.node_id for x in t}
+    for j in range(rng.randint(10, 60)):
+        try:
+            new = rng.choice(holders).add(f"fresh{j}", **kw)
+            if id(new) in ids_in_use:
+                collided += 1
+            holders.append(new)
+        except Exception:
+            # the reaction to a node_id that is already taken is a refusal (AssertionError in the plain classes; the typed
+            # class trips over its own repr while formatting that message - still a refusal, and which type is not demanded)
+            from ..core import exc_in_library
+
+            if not exc_in_library():
+                raise
+            refused += 1
+    res.count("idreuse_adds_refused", refused)
+    res.count("idreuse_default_id_equals_custom_id", collided)
+    res.case(case, nontrivial=True)
+    errs, nodes = wf.wf_graph(t)
+    if errs:
+        res.violation(case, "[C01:wf_graph] after adds whose default node_id coincides with a custom node_id in use: " + "; ".join(errs[:3]))
+
+
 def run_case(case, res):
+    if case.get("kind") == "idreuse":
+        return run_idreuse(case, res)
     if case.get("kind") == "repotests":
         return run_repotests({}, res)
     if case.get("kind") == "onestep":
@@ -44,6 +98,7 @@ def shards(tier, seed):
     out = [{"name": f"hist{i}", "kind": "hist", "i": i, "count": cnt, "budget_s": 100 if tier == "quick" else 1500}
            for i in range(NSHARDS)]
     out.append({"name": "repotests", "kind": "repotests", "i": 0, "budget_s": 300, "cov": False})
+    out.append({"name": "idreuse", "kind": "idreuse", "i": 0, "count": 150 if tier == "quick" else 5000, "budget_s": 300})
     bound, tb = (4, 3) if tier == "quick" else (5, 4)
     out += [{"name": f"one{i}", "kind": "one", "i": i, "bound": bound, "typed_bound": tb,
              "budget_s": 200 if tier == "quick" else 3000} for i in range(NSHARDS)]
@@ -90,6 +145,13 @@ def run_repotests(spec, res):
 def run_shard(spec, res):
     if spec["kind"] == "repotests":
         return run_repotests(spec, res)
+    if spec["kind"] == "idreuse":
+        rng = rng_for(spec["seed"], "c01-idreuse-shard")
+        for j in range(spec["count"]):
+            run_case({"kind": "idreuse", "seed": rng.randrange(10**9), "typed": j % 4 == 3}, res)
+            if res.expired():
+                break
+        return
     if spec["kind"] == "one":
         from . import c04
         for case in c04.onestep_cases(spec["bound"], spec["typed_bound"], spec["i"], NSHARDS):
